@@ -158,7 +158,7 @@ func init() {
 		partRealBinaryIntegrity(c, a, false)
 		// what ends or begins in one session must not touch another one's registration
 		partGated(c, a, []func(*sut.Proc) *e2.Result{e2.G3LateUnregister, e2.G3cLastLeaveVsCreate}, c.Pick(1, 4))
-		partStepThrough(c, a, []string{"lastleave", "create"})
+		partStepThrough(c, a, []string{"lastleave", "create", "leave"})
 		partSwitchPending(c, a) // nothing of a member survives in the session it left by switching
 		partLagSenders(c, a)    // a stalled member of one session does not hold up anybody outside it
 		return a.finish(c)
